@@ -287,7 +287,7 @@ impl RangeRecord {
 
 impl DeltaFormat {
     pub(crate) fn value_count(self, start_size: u16, end_size: u16) -> usize {
-        let range_len = end_size.saturating_add(1).saturating_sub(start_size) as usize;
+        let range_len = (end_size as usize + 1).saturating_sub(start_size as usize);
         let val_per_word = match self {
             DeltaFormat::Local2BitDeltas => 8,
             DeltaFormat::Local4BitDeltas => 4,
@@ -453,7 +453,8 @@ fn iter_packed_values(raw: u16, format: DeltaFormat, n: usize) -> impl Iterator<
 
         let val = if sign {
             // it is 2023 and I am googling to remember how twos compliment works
-            -((((!val) & mask) + 1) as i8)
+            // computed in i16: the magnitude of the most negative 8-bit delta does not fit in i8
+            (-((((!val) & mask) + 1) as i16)) as i8
         } else {
             val as i8
         };
